@@ -148,8 +148,18 @@ def _mk_init_body( self_name, name, type_ ):
       return f"[{', '.join( [ _recursive_generate_init(x[0]) ] * len(x) )}]"
     return f"_type_{name}()"
 
+  # Like the Bits fields, struct and list fields take the VALUE of the
+  # argument: keeping the caller's object would alias the two
+  def _recursive_generate_copy( x, v, depth=0 ):
+    if isinstance( x, list ):
+      e = f"_e{depth}"
+      return f"[{_recursive_generate_copy( x[0], e, depth+1 )} for {e} in {v}]"
+    if is_bitstruct_class( x ):
+      return f"{v}.clone()"
+    return f"_type_{name}({v})"
+
   if isinstance( type_, list ) or is_bitstruct_class( type_ ):
-    return f'{self_name}.{name} = {name} or {_recursive_generate_init(type_)}'
+    return f'{self_name}.{name} = {_recursive_generate_copy(type_, name)} if {name} else {_recursive_generate_init(type_)}'
 
   assert issubclass( type_, Bits )
   return f'{self_name}.{name} = _type_{name}({name})'
